@@ -195,6 +195,7 @@ def train_ddqn(
             obs, _ = env.reset()
             accumulated_reward = 0.0
             if total_episodes is not None and episode >= total_episodes:
+                step += 1  # count the step that finished the last episode
                 break
             episode += 1
         else:
